@@ -163,6 +163,7 @@ pub fn worker_main<S: Sim>(prop: &str, tier: Tier, seed: u64, start: u64, end: u
     super::install_panic_hook();
     alloc::install_trap_handler();
     let cell = Cell::open(cell_path);
+    let hang_test: Option<u64> = std::env::var("LMSIM_TEST_HANG").ok().and_then(|v| v.parse().ok());
     let plan = plan_of::<S>(prop, tier);
     let out = std::io::stdout();
     let mut out = out.lock();
@@ -177,6 +178,12 @@ pub fn worker_main<S: Sim>(prop: &str, tier: Tier, seed: u64, start: u64, end: u
         let sc = gen_scenario_with::<S>(&plan, prop, tier, seed, idx);
         cell.set(v, done);
         alloc::CURRENT_RUN.store(idx, Ordering::Relaxed);
+        if hang_test == Some(idx) {
+            // self-test of the parent's watchdog (`LMSIM_TEST_HANG=<run>`): a run that never finishes
+            loop {
+                std::thread::sleep(std::time::Duration::from_secs(3600));
+            }
+        }
         let o = S::run(prop, &sc, false);
         done += 1;
         cell.set(u64::MAX, done);
@@ -607,13 +614,50 @@ pub fn exec_in_child(sim: &str, prop: &str, scenario: &Value, keep_trace: bool) 
     let path = scratch_dir().join(format!("exec-{}-{}.json", std::process::id(), n));
     std::fs::write(&path, serde_json::to_vec(&json!({"scenario": scenario})).unwrap()).expect("HARNESS: write scratch");
     let exe = std::env::current_exe().unwrap();
-    let out = Command::new(exe)
+    let mut child = Command::new(exe)
         .args(["exec", sim, prop, path.to_str().unwrap(), if keep_trace { "trace" } else { "notrace" }])
         .stdin(Stdio::null())
+        .stdout(Stdio::piped())
         .stderr(Stdio::inherit())
-        .output()
+        .spawn()
         .expect("HARNESS: cannot spawn exec child");
+    // read stdout in a thread; give the child 150 s (a single run takes milliseconds), then kill it: hang
+    let mut stdout = child.stdout.take().unwrap();
+    let reader = std::thread::spawn(move || {
+        let mut buf = Vec::new();
+        let _ = std::io::Read::read_to_end(&mut stdout, &mut buf);
+        buf
+    });
+    let t0 = Instant::now();
+    let mut hung = false;
+    let status = loop {
+        match child.try_wait() {
+            Ok(Some(st)) => break st,
+            Ok(None) => {
+                if t0.elapsed() > Duration::from_secs(150) {
+                    let _ = child.kill();
+                    hung = true;
+                    break child.wait().expect("HARNESS: wait");
+                }
+                std::thread::sleep(Duration::from_millis(5));
+            }
+            Err(_) => break child.wait().expect("HARNESS: wait"),
+        }
+    };
+    let stdout_bytes = reader.join().unwrap_or_default();
+    struct Out {
+        stdout: Vec<u8>,
+        status: std::process::ExitStatus,
+    }
+    let out = Out { stdout: stdout_bytes, status };
     let _ = std::fs::remove_file(&path);
+    if hung {
+        return ExecResult {
+            violation: Some(Violation::new("hang", "", "no result within 150 s")),
+            trace: Vec::new(),
+            hash: String::new(),
+        };
+    }
     let text = String::from_utf8_lossy(&out.stdout);
     for line in text.lines() {
         if let Some(rest) = line.strip_prefix("O ") {
@@ -674,6 +718,10 @@ pub struct Minimised<Sc> {
 
 pub fn minimise<S: Sim>(prop: &str, sc: S::Sc, v: Violation) -> Minimised<S::Sc> {
     let child = class_needs_child(&v.class);
+    if v.class == "hang" {
+        // every candidate would cost a full watchdog period: report the scenario as found
+        return Minimised { scenario: sc, violation: v, executions: 0 };
+    }
     let t0 = Instant::now();
     let mut cur = sc;
     let mut cur_v = v;
@@ -726,7 +774,12 @@ pub fn report<S: Sim>(prop: &str, seed: u64, res: &CheckResult) -> Report {
     // group by original signature, keep the smallest instance of each
     let mut groups: BTreeMap<String, (&Found, u64)> = BTreeMap::new();
     for f in &res.found {
-        let sig = f.violation.signature();
+        let mut sig = f.violation.signature();
+        if class_needs_child(&f.violation.class) && f.violation.tags.is_empty() {
+            if let Ok(sc) = serde_json::from_value::<S::Sc>(f.scenario.clone()) {
+                sig = format!("{}|{}", f.violation.class, S::death_tags(&sc));
+            }
+        }
         let len = serde_json::to_string(&f.scenario).map(|s| s.len()).unwrap_or(0);
         match groups.get_mut(&sig) {
             Some((best, count)) => {
@@ -801,6 +854,9 @@ pub fn report<S: Sim>(prop: &str, seed: u64, res: &CheckResult) -> Report {
             eprintln!("HARNESS: scenario of run {} ({}) stopped replaying - determinism bug", f.run, sig);
             rep.harness_error = true;
             continue;
+        }
+        if class_needs_child(&m.violation.class) && m.violation.tags.is_empty() {
+            m.violation.tags = S::death_tags(&m.scenario);
         }
         let min_sig = m.violation.signature();
         if reported_min_sigs.contains(&min_sig) {
